@@ -398,6 +398,28 @@ class ExprMixin:
             return a == b
         return a is b
 
+
+    def eq_term(self, a, b):
+        """structural equality as a z3 Bool (no forking); containers compared element-wise"""
+        ka, kb = kind_of(a), kind_of(b)
+        if ka in ("list", "tuple") and kb == ka and not isinstance(a, (SymSeq, SymList)) and not isinstance(b, (SymSeq, SymList)):
+            if len(a) != len(b):
+                return z3.BoolVal(False)
+            return z3.And([self.eq_term(x, y) for x, y in zip(a, b)] + [z3.BoolVal(True)])
+        if ka == "dict" and kb == "dict":
+            if set(a.keys()) != set(b.keys()):
+                return z3.BoolVal(False)
+            return z3.And([self.eq_term(a[k], b[k]) for k in a] + [z3.BoolVal(True)])
+        if isinstance(a, SObj) or isinstance(b, SObj):
+            if isinstance(a, SObj) and isinstance(b, SObj) and a.cls == b.cls:
+                return self.eq_term(a.fields, b.fields)
+            return z3.BoolVal(False)
+        npc, ndec = len(self.pc), self.dpos
+        r = self.eq(a, b)
+        if len(self.pc) != npc or self.dpos != ndec:
+            raise Unsupported("eq_term forked")
+        return r.t if isinstance(r, SBool) else z3.BoolVal(bool(r))
+
     def contains(self, cont, item):
         if hasattr(cont, "sym_contains"):
             return cont.sym_contains(self, item)
